@@ -12,7 +12,9 @@ import (
 	"github.com/elastos/Elastos.ELA/core/contract/program"
 	"github.com/elastos/Elastos.ELA/core/transaction"
 	common2 "github.com/elastos/Elastos.ELA/core/types/common"
+	"github.com/elastos/Elastos.ELA/core/types/outputpayload"
 	"github.com/elastos/Elastos.ELA/core/types/payload"
+	"github.com/elastos/Elastos.ELA/crypto"
 
 	"verif/evid"
 	"verif/lightnode"
@@ -49,12 +51,15 @@ func runCtx(scr string) []ctxRes {
 		name    string
 		spendF  bool
 		payment common.Uint168
+		mapping bool // the paying output is an OTMapping output with a valid signed payload
 	}{
-		{"spends", true, oh},
-		{"pays", false, fh},
-		{"spends+pays", true, fh},
-		{"unrelated", false, oh},
-		{"pays-coordinated", false, coord},
+		{"spends", true, oh, false},
+		{"pays", false, fh, false},
+		{"spends+pays", true, fh, false},
+		{"unrelated", false, oh, false},
+		{"pays-coordinated", false, coord, false},
+		{"pays-through-mapping-output", false, fh, true},
+		{"unrelated-mapping-output", false, oh, true},
 	}
 	withList := n.Config(func(p *config.Configuration) {
 		h := fh
@@ -77,6 +82,16 @@ func runCtx(scr string) []ctxRes {
 				tx := transaction.CreateTransaction(common2.TxVersion09, common2.TransferAsset, 0, &payload.TransferAsset{},
 					[]*common2.Attribute{&attr}, []*common2.Input{lightnode.Input(fund, idx)},
 					[]*common2.Output{lightnode.Output(s.payment, 400), lightnode.Output(oh, 400)}, 0, nil)
+				if s.mapping {
+					m := &outputpayload.Mapping{Version: 0, OwnerKey: freeKey.Compressed, SideProducerID: []byte("verif-side-producer")}
+					sig, err := crypto.Sign(freeKey.Priv, m.Data())
+					if err != nil {
+						evid.Fatalf("sign mapping: %v", err)
+					}
+					m.Signature = sig
+					tx.Outputs()[0].Type = common2.OTMapping
+					tx.Outputs()[0].Payload = m
+				}
 				p, err := lightnode.SignStandard(tx, key)
 				if err != nil {
 					evid.Fatalf("sign: %v", err)
@@ -96,7 +111,7 @@ func judgeCtx(r *evid.Run, xs []ctxRes, classes *evid.Distinct) (accepted int) {
 			evid.Fatalf("ContextCheck panicked in the C32 fixture: %s", x.Err)
 		}
 		art := map[string]interface{}{"kind": "context", "case": x}
-		forbidden := x.Cfg != "empty" && x.Shape != "unrelated" && x.H >= coordStart
+		forbidden := x.Cfg != "empty" && x.Shape != "unrelated" && x.Shape != "unrelated-mapping-output" && x.H >= coordStart
 		classes.Add(fmt.Sprintf("ctx|%s|%s|h-S=%d|accepted=%v", x.Cfg, x.Shape, int64(x.H)-int64(coordStart), x.Accepted))
 		if x.Accepted {
 			accepted++
